@@ -340,6 +340,12 @@ class LoadScopeScheduling:
         # Pop one unit of work and assign it
         self._assign_work_unit(node)
 
+        # A node can only start a test once it knows the next one: keep
+        # assigning until it holds at least two pending tests (a node which
+        # joined late, replacing a crashed one, starts with nothing).
+        while self.workqueue and self._pending_of(self.assigned_work[node]) < 2:
+            self._assign_work_unit(node)
+
     def schedule(self) -> None:
         """Initiate distribution of the test collection.
 
